@@ -20,8 +20,21 @@ pub fn session_variants(r: &mut Rng, events: &mut Vec<Event>, rerun_den: u64, re
     let mut out: Vec<Event> = Vec::with_capacity(events.len() + 8);
     let n = events.len();
     let mut lang_of: std::collections::BTreeMap<u8, String> = std::collections::BTreeMap::new();
+    // the text each live session was given last (for the delayed repetition below)
+    let mut prev_text: std::collections::BTreeMap<u8, crate::trace::TextSpec> = std::collections::BTreeMap::new();
     for i in 0..n {
         let ev = events[i].clone();
+        if let Op::SessionNew { .. } = &ev.op { prev_text.remove(&ev.actor); }
+        if let Op::SessionText { text } = &ev.op {
+            // the session's PREVIOUS text once more, just before its next one: everything that happened in
+            // between (administrator calls, other clients, clock advances) lies between the two copies
+            if let Some(p) = prev_text.get(&ev.actor) {
+                if ev.clock.is_frozen() && repeat_den > 0 && r.chance(1, repeat_den) && p != text {
+                    out.push(Event { actor: ev.actor, op: Op::SessionText { text: p.clone() }, clock: ev.clock.clone() });
+                }
+            }
+            prev_text.insert(ev.actor, text.clone());
+        }
         if let Op::SessionNew { lang } | Op::SessionLang { lang } = &ev.op { lang_of.insert(ev.actor, lang.clone()); }
         if let Op::SessionNew { .. } = &ev.op {
             // a brand-new session is evaluated before any text was set (the call has nothing to evaluate;
